@@ -12,10 +12,12 @@ Open Scope N_scope.
    the IDs written into files that reached the disk are pairwise different, lie in
    1 .. 4294967294 (the counter never wraps), and are above every reference of every recognised
    statement -- when the lock is absent/disabled/corrupt (first pass), or when it holds a value
-   that is ahead of every such reference. *)
+   that is ahead of every such reference.  The only assumption on a lock value is that it is a u32
+   (what a lock that parses holds); in particular a lock that records 0 does not make ID 0 be written
+   (repaired defect: the proof used to need 1 <= L, and running the code at L = 0 wrote [ref: 0]). *)
 Theorem C01_ids_unique_in_range : forall rc files lk o,
   files <> [] ->
-  (forall L, cached_id rc lk = Some L -> 1 <= L <= u32max) ->
+  (forall L, cached_id rc lk = Some L -> L <= u32max) ->
   let out := edit rc files lk o in
   NoDup (map id3 (ro_ids out)) /\
   (forall x, In x (ro_ids out) -> 1 <= id3 x /\ id3 x < 4294967295) /\
@@ -28,7 +30,7 @@ Proof. exact (edit_ids_unique_in_range the_params find c_START_REFERENCE_ID star
 
 Check C01_ids_unique_in_range : forall rc files lk o,
   files <> [] ->
-  (forall L, cached_id rc lk = Some L -> 1 <= L <= u32max) ->
+  (forall L, cached_id rc lk = Some L -> L <= u32max) ->
   let out := edit rc files lk o in
   NoDup (map id3 (ro_ids out)) /\
   (forall x, In x (ro_ids out) -> 1 <= id3 x /\ id3 x < 4294967295) /\
